@@ -340,6 +340,19 @@ func (d *drv) doStore(c *tcase) {
 	if len(got) > 0 {
 		d.c.Cmd("STORE 1:* -FLAGS.SILENT (\\Flagged)")
 	}
+	// the same set with a data item that changes nothing (an empty flag list): the set is resolved all the same
+	if alive && c.Exp.Judged {
+		item := []string{"+FLAGS ()", "-FLAGS.SILENT ()"}[len(c.setText())%2]
+		res := d.c.Cmd(prefix(c) + "STORE " + c.setText() + " " + item)
+		switch {
+		case res.Closed || res.TimedOut:
+			d.report(c, "STORE-EMPTY", "connection-lost", "the connection was closed or timed out instead of a tagged reply")
+		case c.Exp.Res == "BAD" && res.Status != "BAD":
+			d.report(c, "STORE-EMPTY", "beyond-not-bad", fmt.Sprintf("STORE %s %s answered %s", c.setText(), item, res.Status))
+		case c.Exp.Res != "BAD" && res.Status != "OK":
+			d.report(c, "STORE-EMPTY", "valid-refused", fmt.Sprintf("STORE %s %s answered %s %s", c.setText(), item, res.Status, res.Text))
+		}
+	}
 }
 
 func (d *drv) auxFlagged(box string) ([]int, error) {
